@@ -159,6 +159,7 @@ pub fn run(run: &Run) {
     explore_all(run, &seq_universes(run.tier, false, true));
     // headers whose payload after the address block is structured (every TLV type byte, lengths, fills; nested SSL; long runs)
     run.explore(&super::c11::EmbeddedStructured::new(false));
+    run.explore(&super::c11::NearMaxStructured { span: run.tier.pick(35, 135) });
     run.explore(&super::c11::EmbeddedTlv { n: run.tier.pick(6, 8) });
     run.explore(&super::c11::EmbeddedText { n: run.tier.pick(6, 8) });
 }
